@@ -274,6 +274,8 @@ func init() {
 			{Name: "lists", QShards: 2, TShards: 8, Run: c01Lists},
 			{Name: "sizes", QShards: 2, TShards: 8, Run: c01Sizes},
 			{Name: "prefixes", Run: prefixUnit("fasta", false, 0)},
+			{Name: "edges", Run: edgeUnit("fasta")},
+			{Name: "fieldlens", TShards: 2, Run: lengthUnit("fasta")},
 		},
 	})
 }
